@@ -378,6 +378,33 @@ func Check(s string, r *mon.R) {
 				return
 			}
 			r.Count("compile_agreements", 1)
+			// the pieces alone: the let pieces before the query and the query piece,
+			// each as it stands, joined by semicolons, mean the same as in context
+			// (pieces without tokens — comments, white space — are left out)
+			if e1 == nil {
+				var kept []string
+				cnt2 := -1
+				for pi, p := range parts {
+					if !hasTokens(pieceToks[pi]) {
+						continue
+					}
+					cnt2++
+					if cnt2 > q {
+						break
+					}
+					kept = append(kept, p)
+				}
+				alone, e3, o3 := mon.Compile(strings.Join(kept, ";"), nil)
+				if o3.Anomalous() {
+					r.Inconclusive("foreign_compile_anomaly")
+					return
+				}
+				if e3 != nil || alone != whole {
+					r.Violation("", "Compile(%q) = %q but compiling its let and query pieces alone, %q, gives (%q, %v)", s, whole, strings.Join(kept, ";"), alone, e3)
+					return
+				}
+				r.Count("pieces_alone_agreements", 1)
+			}
 		}
 	}
 	if semis >= 1 && len(toks)-semis >= 2 {
